@@ -804,6 +804,18 @@ def main(prop, families=None):
             chk.add_tlc(neg, rn, expect_violation=True)
             if rn.ok:
                 raise MachineryError("negative control %s was not violated: the invariants do not see the deviation" % neg)
+    if prop == "C07":
+        # the similarity clause: dimensional bookkeeping of every solver formula (Units.tla); replays are in replay_symmetry
+        ru = run_tlc("Units", "MC_Units", workers=1)
+        chk.add_tlc("MC_Units", ru)
+        if not ru.ok:
+            raise MachineryError("MC_Units: the solver's formulas as specified are not homogeneous under the similarity scalings")
+        if t == "thorough":
+            for neg in ("MC_Units_neg_b_no_kzinv", "MC_Units_neg_eig_no_kzinv", "MC_Units_neg_mean_no_kz"):
+                rn = run_tlc("Units", neg, workers=1)
+                chk.add_tlc(neg, rn, expect_violation=True)
+                if rn.ok:
+                    raise MachineryError("negative control %s was not violated" % neg)
     variants = VARIANTS_QUICK if t == "quick" else VARIANTS_THOROUGH
     total = 0
     for fam, key in families:
